@@ -25,14 +25,14 @@ import (
 
 func filterOutHLSParams(rawQuery string) string {
 	if rawQuery != "" {
-		if q, err := url.ParseQuery(rawQuery); err == nil {
-			for k := range q {
-				if strings.HasPrefix(k, "_HLS_") {
-					delete(q, k)
-				}
+		// like http.Request.URL.Query(), keep what can be parsed and drop the rest
+		q, _ := url.ParseQuery(rawQuery)
+		for k := range q {
+			if strings.HasPrefix(k, "_HLS_") {
+				delete(q, k)
 			}
-			rawQuery = q.Encode()
 		}
+		rawQuery = q.Encode()
 	}
 	return rawQuery
 }
